@@ -1,6 +1,7 @@
 ------------------------------ MODULE TraceAssert ------------------------------
 (* code -> spec for C12: each event is one real layer.assert_constraints(eps) call in eager mode  *)
 (*   [ev |-> "Assert", cfg, den, w (ints over den), eps ([n, d]), outcome |-> "pass" | "fail"]      *)
+(*   [ev |-> "AssertMulti", cfg, den, ws (one vector per unit), eps, outcome]    a multi-unit layer             *)
 (* judged by the oracle of AssertOps.                                                              *)
 EXTENDS AssertOps, TraceBase
 VARIABLE l
@@ -15,8 +16,14 @@ Clauses(e) ==
   LET c == Cfg(e)  x == FxSeq(e.w, e.den)  eps == Nm(e.eps)
   IN (IF MustFail(c, x, eps) /\ e.outcome = "pass" THEN {"MissedViolation"} ELSE {})
      \cup (IF MustPass(c, x, eps) /\ e.outcome = "fail" THEN {"FalseAlarm"} ELSE {})
+\* several units in one layer: the call must fail when SOME unit must fail, and pass when EVERY unit must pass
+MultiClauses(e) ==
+  LET c == Cfg(e)  eps == Nm(e.eps)  xs == [u \in 1..Len(e.ws) |-> FxSeq(e.ws[u], e.den)]
+  IN (IF (\E u \in 1..Len(xs) : MustFail(c, xs[u], eps)) /\ e.outcome = "pass" THEN {"MissedViolationInOneUnit"} ELSE {})
+     \cup (IF (\A u \in 1..Len(xs) : MustPass(c, xs[u], eps)) /\ e.outcome = "fail" THEN {"FalseAlarm"} ELSE {})
 TraceInit == l = 1
-TraceNext == /\ l <= Len(Trace) /\ l' = l + 1 /\ Record(Trace[l].i, Clauses(Trace[l]))
+TraceNext == /\ l <= Len(Trace) /\ l' = l + 1
+             /\ Record(Trace[l].i, IF Trace[l].ev = "AssertMulti" THEN MultiClauses(Trace[l]) ELSE Clauses(Trace[l]))
 TraceSpec == TraceInit /\ [][TraceNext]_tvars
 ASSUME TLCSet(1, {})
 =============================================================================
